@@ -8,8 +8,9 @@ ROOT = os.path.dirname(os.path.dirname(os.path.abspath(__file__)))
 seeds = sys.argv[1:] or sorted(os.listdir(os.path.join(ROOT, 'seeded')))
 rows = []
 # one synchronisation at the start; the runs then use that copy even if /verif is edited meanwhile
-subprocess.run(['rsync', '-a', '--delete', '--exclude', '/work', '--exclude', '/.git', ROOT + '/', '/root/work/vcopy/'], check=True)
-os.makedirs('/root/work/vcopy/work', exist_ok=True)
+subprocess.run(['rsync', '-a', '--delete', '--exclude', '/work', '--exclude', '/.git', ROOT + '/', '/root/work/vcopy-matrix/'], check=True)
+os.makedirs('/root/work/vcopy-matrix/work', exist_ok=True)
+os.environ['SEED_VCOPY'] = '/root/work/vcopy-matrix'
 os.environ['SEED_NOSYNC'] = '1'
 def run(seed, prop):
     out = subprocess.run([os.path.join(ROOT, 'lib', 'seed_batch.sh'), '%s %s' % (seed, prop)], capture_output=True, text=True).stdout
